@@ -850,11 +850,32 @@ fn c07_body(src: &mut Src, st: &mut Stats) -> PResult {
         return c07_length_byte_case(&mut src, st);
     }
     let o = GenOpts { big: false, many: false, ..GenOpts::default() };
-    let (bytes, d, _tag) = match gen_accepted(&mut src, &o) {
-        Some(x) => x,
-        None => {
-            st.class("skipped:not-accepted-by-reference");
+    let (bytes, d, _tag) = if src.chance(20) {
+        // the compressor's families (suffix nesting up to depth 40, many distinct suffixes, long and
+        // mixed-case suffixes): the renamer re-compresses its output and meets the same limits
+        let (m, tag) = gen_compress_message(&mut src);
+        if m.to_wire_plain().len() > 20_000 {
+            st.class("skipped:family-message-too-large");
             return Ok(());
+        }
+        let bytes = if src.chance(128) { enc::encode(&m, Layout::Literal).bytes } else { enc::encode(&m, Layout::Random(&mut src)).bytes };
+        match refdec::decode_strict(&bytes) {
+            Some(d) => {
+                st.class(&format!("compress-family:{}", tag));
+                (bytes, d, "family".to_string())
+            }
+            None => {
+                st.class("skipped:not-accepted-by-reference");
+                return Ok(());
+            }
+        }
+    } else {
+        match gen_accepted(&mut src, &o) {
+            Some(x) => x,
+            None => {
+                st.class("skipped:not-accepted-by-reference");
+                return Ok(());
+            }
         }
     };
     if !matches!(lib_parse(&bytes), Ok(Ok(_))) {
@@ -907,7 +928,7 @@ pub fn c07_regressions() -> Vec<(&'static str, Message, RenameArgs, bool)> {
 pub fn check_c07(ctx: &Ctx, known: &KnownFindings) -> Report {
     let mut rep = Report::new("C07");
     let ks = known_sigs(known, "C07");
-    rep.rule = "accepted packets (small, any layout, OPT anywhere) x (target, source, exact|suffix): source drawn from the suffixes present in the packet at every label depth (plain, case-flipped), near-misses (partial label, one byte changed, bit 5 of a non-letter byte flipped, one extra label), absent names; target generated, = source, single label, or 64..255 bytes long (overflow). Both Renamer::rename_with_raw_names and the ParsedPacket wrapper. Oracle: specification of renaming applied to the decoded message; overflow => Err (object unchanged and usable, summaries like a fresh parse, and a second rename of the same object with a target that fits gives the specified result); else Ok, output accepted by parser and reference and equal to the renamed model up to name case (header, counts, order, types, classes, TTLs, opaque data, OPT record and its position exact); identity rename leaves the message unchanged; after the wrapper the object walks and summarises like a fresh parse. Non-trivial: >= 1 name rewritten or a near-miss source; distinct = hash of (packet, args).".into();
+    rep.rule = "accepted packets (small, any layout, OPT anywhere; 1 in 13 from the compressor's families: suffix nesting up to depth 40, 20-200 distinct suffixes, long and mixed-case suffixes) x (target, source, exact|suffix): source drawn from the suffixes present in the packet at every label depth (plain, case-flipped), near-misses (partial label, one byte changed, bit 5 of a non-letter byte flipped, one extra label), absent names; target generated, = source, single label, or 64..255 bytes long (overflow). Both Renamer::rename_with_raw_names and the ParsedPacket wrapper. Oracle: specification of renaming applied to the decoded message; overflow => Err (object unchanged and usable, summaries like a fresh parse, and a second rename of the same object with a target that fits gives the specified result); else Ok, output accepted by parser and reference and equal to the renamed model up to name case (header, counts, order, types, classes, TTLs, opaque data, OPT record and its position exact); identity rename leaves the message unchanged; after the wrapper the object walks and summarises like a fresh parse. Non-trivial: >= 1 name rewritten or a near-miss source; distinct = hash of (packet, args).".into();
     rep.assumptions = vec![
         "source and target are well-formed, pointer-free, non-root raw names within the label character policy".into(),
         "domain = packets accepted by both parser and reference".into(),
@@ -940,6 +961,7 @@ pub fn check_c07(ctx: &Ctx, known: &KnownFindings) -> Report {
         "source:near-miss-length-byte-inside-label",
         "source:near-miss-bit5-of-non-letter",
         "rename-after-failed-rename",
+        "compress-family:nested",
         "source:absent",
         "mode:suffix",
         "mode:exact",
